@@ -149,9 +149,14 @@ def step (s : St) (ws : List String) : St × String :=
     let cfg : Cfg := { price := price, audit := audit }
     ({ cfg := cfg, node := initNode, started := true }, s!"ok h={initNode.height}")
   | "block" :: rest =>
-    let txs := (splitTxs rest).map parseTx
+    -- `sig:<kind> <tx>`: the transaction is not local, its signature is verified; every kind but `ok` is an invalid signature
+    let parseSigned (t : List String) : Option (Tx × Bool) :=
+      match t with
+      | k :: inner => if k.startsWith "sig:" then (parseTx inner).map (fun x => (x, k == "sig:ok")) else (parseTx t).map (fun x => (x, true))
+      | [] => none
+    let txs := (splitTxs rest).map parseSigned
     if txs.all Option.isSome then
-      let (n', out) := execBlock s.cfg s.node ((txs.filterMap id).map fun t => (t, true))
+      let (n', out) := execBlock s.cfg s.node (txs.filterMap id)
       ({ s with node := n' }, showBlock out)
     else (s, "bad-op unparsed")
   | ["q", "status", id] =>
